@@ -99,6 +99,9 @@ func DecodeContainerChildren(hdr BoxHeader, startPos, endPos uint64, r io.Reader
 	children := make([]Box, 0, 8)
 	pos := startPos
 	for {
+		if pos == endPos { // empty container, or all children read
+			return children, nil
+		}
 		child, err := DecodeBox(pos, r)
 		if err == io.EOF {
 			if pos != endPos {
